@@ -265,6 +265,20 @@ def _post_probes(req, trace):
             if not p['diff_st_empty']:
                 p['diff_st'] = str(d1)
             p['version_id'] = v.pk
+            field = Version._meta.get_field('signature')
+            with connections[db].cursor() as cur:
+                cur.execute('SELECT signature FROM django_project_version '
+                            'WHERE id = %s', [v.pk])
+                raw = cur.fetchone()[0]
+            p['reserialise_equal'] = (field._dumps(stored) == raw)
+            p['target_text_equal'] = (field._dumps(target) == raw)
+            clone = stored.clone()
+            p['clone_eq'] = bool(clone == stored)
+            p['clone_diff_empty'] = Diff(stored, clone).is_empty(
+                ignore_apps=False) and Diff(clone, stored).is_empty(
+                ignore_apps=False)
+            p['self_diff_empty'] = Diff(stored, stored).is_empty(
+                ignore_apps=False)
         except Exception as e:
             p['error'] = '%s: %s' % (type(e).__name__, e)
         trace.emit({'t': 'probe', 'name': 'sig', 'p': p})
